@@ -165,8 +165,22 @@ def _tokenised_load_drops_eof_marker(ctx, rep):
 
 
 def check(ctx, rep):
+    # the end of the program is sealed with three NUL bytes everywhere it is written (erase, truncate, rebuild_line_dict): the
+    # protected reader drops exactly one byte behind them, so a shorter seal loses a byte of the program on a cassette round trip
+    n_seal = 0
+    for fn in ctx.idx.functions('pcbasic/basic/program.py'):
+        for c in own_nodes(fn):
+            if isinstance(c, ast.Call) and norm(c.func) == 'self.bytecode.write' and c.args:
+                for k in ast.walk(c.args[0]):
+                    if isinstance(k, ast.Constant) and isinstance(k.value, bytes) and k.value and set(k.value) == {0}:
+                        n_seal += 1
+                        rep.ob('seal.three-nul-bytes', '%s: %s' % (fn.name, short(c, 50)), len(k.value) == 3,
+                               'the program end is sealed with %d NUL byte(s), not 3' % len(k.value), ctx.where(c))
+    rep.floor('seal.three-nul-bytes', n_seal, 3, 'seals written to program memory')
     _tokenised_load_drops_eof_marker(ctx, rep)
     from . import c24 as _c24, _share as _sh
+    from . import c17 as _c17
+    _sh.share(ctx, rep, _c17, ('lines.one-space-after-the-number',), 'ASCII SAVE then LOAD re-enters every listed line: only the single space the lister adds after the line number is dropped again')
     _sh.share(ctx, rep, _c24, ('lines.reader',), 'an ASCII program is loaded line by line through TextFile.read_line: a line of up to 255 characters arrives whole')
     _erase_cuts_behind_terminator(ctx, rep)
     p = _cipher_word(ctx, rep, 'protect')
@@ -352,6 +366,8 @@ def variants(ctx):
         return t
 
     return [
+        V('seal-shortened-to-two-bytes', 'break', PROGRAM,
+          in_fn('Program.rebuild_line_dict', lambda fn: mu.replace_expr(fn, lambda n: isinstance(n, ast.Constant) and n.value == b'\x00\x00\x00', "b'\\0\\0'")), expect='seal.three-nul-bytes'),
         V('erase-cuts-before-writing-the-terminator', 'break', PROGRAM, in_fn('Program.erase', _truncate_first), expect='erase.cuts-behind-terminator'),
         V('merge-ends-at-blank-line', 'break', PROGRAM,
           in_fn('Program.merge', lambda fn: mu.replace_expr(fn, mu.text_is('not line and (not cr)'), 'not line')), expect='ascii.eof'),
